@@ -2,6 +2,16 @@
 cheap_canonicalize_path, tied to the Rust code by correspondence on component strings (exhaustive in the thorough tier)."""
 from vlib import core
 
+MANIFEST_ENTRY = {
+    "level_claimed": {"category": "proof",
+        "text": "Lean theorems for every component list: normalisation preserves the denoted file (including the number of leading `..`), "
+                "equal normal forms imply equal files, idempotence, and canonicity; the model transcribes cheap_canonicalize_path and is tied "
+                "to the Rust code by correspondence on component strings (exhaustive to length 8 in the thorough tier)."},
+    "level_note": "trusted: Lean kernel + {propext, Quot.sound}; Path::components is modelled (validated on every case); symlinks, Windows "
+                  "prefixes and names containing a backslash are outside the model; the transcription is checked by differential runs, not verified.",
+    "technique": "Lean 4 proof (induction over component lists, simulation between path buffer and denotation) + differential correspondence",
+}
+
 
 def nontrivial(row):
     # a path is non-trivial when it has a parent-directory component and at least one named component
